@@ -521,3 +521,30 @@ _C19 = [
              'join': True}},
 ]
 SPECS['C19'] = _C19
+# boltons.setutils.IndexedSet (round 3d, C11): the tombstone / dead-interval bookkeeping, translated by
+# harness/py2lean_c11.py (spec key `translator`; heap mode over PyHeap.lean, runtime lean/BoltonsVerif/PyRtC11.lean).
+# The `[start, stop]` intervals of `dead_indices` are CELLS of the object store (two-slot lists reached through locals:
+# `dint = dints[int_idx - 1]; dint[0] = start`); `item_list` / `dead_indices` are lists of dynamic values (`key k` or the
+# `_MISSING` sentinel; `ref a`) that the class mutates in place through local aliases and never rebinds;
+# `item_index_map` maps items to ints.  Types: Int | Bool | None | Key (κ) | Val | Option Int | List Val | Dict Key Int.
+# `ops`: spec-declared operations {name: (module it must be imported from, runtime definition, arity)};
+# `consts`: module-level int constants read from the AST (the divisor of the float test of `_cull`).
+INDEXED_SET = {
+    'name': 'IndexedSet', 'lean_name': 'IndexedSet', 'tparams': ['κ'],
+    'state': {'heap': 'Heap', 'item_index_map': 'Dict Key Int', 'item_list': 'List Val', 'dead_indices': 'List Val',
+              '_compactions': 'Int', '_c_max_size': 'Int'},
+    'virtual': ['heap'], 'sentinels': ['_MISSING'], 'consts': ['_COMPACTION_FACTOR'],
+    'ops': {'bisect_left': ('bisect', 'bisectLeft?', 2)},
+}
+_ISET = []
+for _m in [
+    {'py': '_add_dead', 'name': 'add_dead', 'params': {'start': 'Int', 'stop': 'Option Int'}, 'result': 'None',
+     'tie_theorem': 'C11.src_add_dead_eq_model'},
+]:
+    _sp = dict(_m, module='boltons.setutils', cls=INDEXED_SET, method=True, translator='py2lean_c11',
+               gen_file='setutils_iset', qualname='IndexedSet.' + _m['py'], lean_name='IndexedSet.' + _m['name'],
+               kind='function', raises=True)
+    del _sp['name']
+    _ISET.append(_sp)
+INDEXED_SET['methods'] = _ISET
+SPECS['C11'] = SPECS['C11'] + _ISET
